@@ -41,6 +41,7 @@ V2 = [Rule('M', Asg('es', '+=', Ref('E'))), Rule('E', A(Ref('C'), Ref('P'))),
 SCENARIOS = [
     corpus.G('shared-user-classes', V2, tags=['user']),
     corpus.G('restricted-user-classes', V2, tags=['user']),
+    corpus.G('class-default-user-classes', V2, tags=['user']),
 ]
 
 
@@ -73,6 +74,30 @@ def build(g):
             def __init__(self, parent=None, v=None):
                 self.v = v
         return metamodel_from_str(gram.render_grammar(V2), classes=[C, Q])
+    if g['name'] == 'class-default-user-classes':
+        from textx import metamodel_from_str
+
+        # user classes that document their attributes with class-level defaults (a mutable one among them):
+        # every object still gets its own values and lists; an earlier model of the same classes exists
+        class C:
+            name = None
+            ps = []
+            nested = []
+            parent = None
+
+            def __init__(self, **kw):
+                for k, v in kw.items():
+                    setattr(self, k, v)
+
+        class Q:
+            v = 0
+
+            def __init__(self, parent=None, v=None):
+                self.parent = parent
+                self.v = v
+        mm = metamodel_from_str(gram.render_grammar(V2), classes=[C, Q])
+        mm.model_from_str('c b q 2 n c d q 3;;')
+        return mm
     if 'user' in g['tags']:
         from textx import metamodel_from_str
 
